@@ -67,6 +67,23 @@ var kfWitnesses = map[string]func() (bool, string){
 		derr := decodeStrict(`{"A":1,"K":2}`, new(kfUnexp))
 		return ok && derr != nil, fmt.Sprintf("schema accepts: %v; decode: %v", ok, derr)
 	},
+	"O-11a": func() (bool, string) {
+		// a JSON number whose exponent math/big refuses to parse (beyond 10^6)
+		n, m := json.Number("1e1000001"), json.Number("10e1000000")
+		eqStr := jsonschema.Equal(n, "1e1000001")
+		eqNum := jsonschema.Equal(n, m)
+		return eqStr || !eqNum, fmt.Sprintf("Equal(json.Number(1e1000001), the string \"1e1000001\") = %v; Equal(json.Number(1e1000001), json.Number(10e1000000)) = %v", eqStr, eqNum)
+	},
+	"O-5b": func() (bool, string) {
+		n := 1 << 40
+		bs, err := json.Marshal(&jsonschema.Schema{MinLength: &n})
+		if err != nil {
+			return false, "Marshal refuses: " + err.Error()
+		}
+		var back jsonschema.Schema
+		uerr := json.Unmarshal(bs, &back)
+		return uerr != nil, fmt.Sprintf("Marshal gives %s; Unmarshal of that: %v", bs, uerr)
+	},
 	"O-16": func() (bool, string) {
 		var s jsonschema.Schema
 		doc := `{"$defs":{"a":{"type":"integer"}},"definitions":{"b":true},"$ref":"#/$defs/a"}`
